@@ -103,6 +103,83 @@ example : pieces false [.data [], .varBegin, .name ['x'], .varEnd] [(['x'], some
 example : pieces true [.data [], .varBegin, .name ['x'], .varEnd] [(['x'], some (.obj 0 "o"))] [] =
     some [.obj 0 "o"] := by decide
 
+/-! ### compile-time constant output expressions: one piece per maximal run, empty or not -/
+
+/-- a child of an Output node as the native generator sees it: a constant (template data or a constant expression,
+    with its text) or a runtime expression (with its value) -/
+inductive Child where
+  | const (s : String)
+  | val (v : Val)
+
+def emitChild (st : NativeTpl.St) : Child → NativeTpl.St
+  | .const s => pushConst st s
+  | .val v => pushVal st v
+
+/-- what the interpreter does with the children of one output run -/
+def emitChildren (st : NativeTpl.St) (cs : List Child) : NativeTpl.St := cs.foldl emitChild st
+
+/-- the documented number of pieces of a run: one per runtime expression and one per MAXIMAL run of constants —
+    whatever their text, the empty string included (`inRun`: the run continues a constant group already open) -/
+def runPieces : Bool → List Child → Nat
+  | _, [] => 0
+  | inRun, .const _ :: r => (if inRun then 0 else 1) + runPieces true r
+  | _, .val _ :: r => 1 + runPieces false r
+
+/-- state invariant of the interpreter: an open constant group is the newest piece and is a string -/
+def GroupOpen (st : NativeTpl.St) : Prop := st.lastData = true → ∃ t r, st.out = .str t :: r
+
+theorem emitChild_spec (st : NativeTpl.St) (c : Child) (hl : st.live = true) (hw : GroupOpen st) :
+    (emitChild st c).live = true ∧ GroupOpen (emitChild st c) ∧
+    (emitChild st c).out.length = st.out.length + runPieces st.lastData [c] ∧
+    (emitChild st c).lastData = (match c with | .const _ => true | .val _ => false) := by
+  cases c with
+  | val v => simp [emitChild, pushVal, hl, GroupOpen, runPieces]
+  | const s =>
+    cases hd : st.lastData with
+    | false =>
+      simp [emitChild, pushConst, pushData, hl, hd, GroupOpen, runPieces]
+    | true =>
+      obtain ⟨t, r, ho⟩ := hw hd
+      simp [emitChild, pushConst, pushData, hl, hd, ho, GroupOpen, runPieces]
+
+/-- **one piece per maximal constant run, empty or not; runtime expressions are never merged or dropped**:
+    for every run of children and every live state, the interpreter adds exactly `runPieces` pieces -/
+theorem output_run_pieces (cs : List Child) (st : NativeTpl.St) (hl : st.live = true) (hw : GroupOpen st) :
+    (emitChildren st cs).out.length = st.out.length + runPieces st.lastData cs := by
+  induction cs generalizing st with
+  | nil => simp [emitChildren, runPieces]
+  | cons c r ih =>
+    obtain ⟨h1, h2, h3, h4⟩ := emitChild_spec st c hl hw
+    have := ih (emitChild st c) h1 h2
+    simp only [emitChildren, List.foldl_cons] at this ⊢
+    rw [this, h3, h4]
+    cases c <;> simp [runPieces] <;> omega
+
+/-- a constant next to a runtime expression is a piece of its own even when its text is empty -/
+example (st : NativeTpl.St) (hl : st.live = true) (hw : GroupOpen st) (v : Val) :
+    (emitChildren st [.val v, .const ""]).out.length = st.out.length + 2 := by
+  rw [output_run_pieces _ _ hl hw]; simp [runPieces]
+
+/-- **the number of pieces decides**: two or more pieces never come back as "the value itself" — the result is the
+    literal the concatenated text denotes, or the text -/
+theorem two_pieces_never_identity {L : Type} (litEval : String → Option L) (isGen : Bool) (a b : Val) (rest : List Val)
+    (v : Val) : nativeConcat litEval isGen (a :: b :: rest) ≠ .value v := by
+  rw [native_concat_spec]
+  simp only [spec, parse]
+  split <;> simp
+
+/-- `{{ x }}{{ '' }}`: two pieces, hence text; `{{ x }}` alone: the value -/
+example : pieces true [.varBegin, .name ['x'], .varEnd, .varBegin, .lit ['\'', '\''], .varEnd] [(['x'], some (.obj 0 "o"))] [] =
+    none := by decide
+example : (piecesWith true [.varBegin, .name ['x'], .varEnd, .varBegin, .lit ['\'', '\''], .varEnd]
+    [(['x'], some (.obj 0 "o"))] [] [(['\'', '\''], "")]).map Prod.fst = some [.obj 0 "o", .str ""] := by decide
+
+/-- **no skipped constant group in the source** (READ on every run from compiler.py `CodeGenerator.visit_Output`): the
+    list of groups is only appended to and the write loop writes every constant group unconditionally -/
+theorem output_groups_never_dropped :
+    JinjaV.Gen.NativeGuards.outputBodyOnlyAppended = true ∧ JinjaV.Gen.NativeGuards.constGroupAlwaysWritten = true := by
+  decide
+
 /-- **C34, single expression**: a template whose pieces are one non-string value renders to that value itself,
     through `render` (list) and `render_async` (list of the async generator's items), for any literal evaluator -/
 theorem single_piece_template_returns_value {L : Type} (litEval : String → Option L) (isGen guard : Bool) (cfg : Cfg)
